@@ -432,6 +432,10 @@ func disconnectCase(c *core.Case, k int) {
 		duringLogin(c, srv, ip, opt, optClass, target)
 		return
 	}
+	if late && (k/3)%2 == 1 {
+		grantDuringLogin(c, srv, ip, opt, optClass, target)
+		return
+	}
 	tgt, err := refclient.LoginAs(srv, ip+":4000", "prot", "", "Protected")
 	if err != nil {
 		c.Unsure("login: %v", err)
@@ -567,5 +571,86 @@ func duringLogin(c *core.Case, srv *fixture.Server, ip string, opt []byte, optCl
 	}
 	if b, _ := srv.S.BanList.IsBanned(ip); b {
 		c.Fail("C06/disconnect/banned", "the address of a user holding cannot-be-disconnected was banned by a request that arrived while its login was being completed (options %x)", opt)
+	}
+}
+
+// grantDuringLogin: the account is marked cannot-be-disconnected by an administrator's (acknowledged) set-user while a
+// login to that account is under way - authenticated, its account looked up, but not yet in the registry (a hook holds
+// it there until the set-user has been answered). The disconnect request arrives after the login has completed: the
+// account has carried the mark since before the user could be addressed at all, so the request must be refused.
+func grantDuringLogin(c *core.Case, srv *fixture.Server, ip string, opt []byte, optClass int, target []byte) {
+	adm, err := refclient.LoginAs(srv, "10.3.0.2:1", "admin", "", "Admin")
+	if err != nil {
+		c.Unsure("login: %v", err)
+		return
+	}
+	srv.Quiesce(refclient.Watchdog)
+	held, release := make(chan struct{}, 4), make(chan struct{})
+	srv.OnEvent = func(name string, cid [2]byte, x uint32) {
+		if name == "conn.registering" {
+			held <- struct{}{}
+			select {
+			case <-release:
+			case <-time.After(refclient.Watchdog):
+			}
+		}
+	}
+	var tgt *refclient.Client
+	var lerr error
+	done := make(chan struct{})
+	go func() {
+		defer close(done)
+		tgt, lerr = refclient.LoginAs(srv, ip+":4000", "prot", "", "Protected")
+	}()
+	select {
+	case <-held:
+	case <-time.After(refclient.Watchdog):
+		close(release)
+		c.Unsure("the target's login was not observed at the hook")
+		return
+	}
+	rep, ok := adm.CallDirect(353, rc.F(105, rc.Obfuscate([]byte("prot"))), rc.FS(102, "Prot"), rc.F(110, target), rc.F(106, []byte{0}))
+	close(release)
+	<-done
+	srv.OnEvent = nil
+	if !ok || rep.Err != 0 {
+		c.Unsure("set-user failed: %v", rep)
+		return
+	}
+	if lerr != nil {
+		c.Fail("C06/disconnect/during-login/login-failed", "the login during which the account was edited failed: %v", lerr)
+		return
+	}
+	srv.Quiesce(refclient.Watchdog)
+	ul, _ := adm.Call(300)
+	users, _ := refclient.UserList(ul)
+	var tid uint16
+	for _, u := range users {
+		if string(u.Name) == "Protected" || string(u.Name) == "Prot" {
+			tid = u.ID
+		}
+	}
+	if tid == 0 {
+		c.Unsure("target not listed")
+		return
+	}
+	fields := []rc.Field{rc.F(103, rc.U16(int(tid)))}
+	if opt != nil {
+		fields = append(fields, rc.F(113, opt))
+	}
+	reply, ok := adm.CallDirect(110, fields...)
+	c.Describe(fmt.Sprintf("disconnect-protected/opt%d/granted-during-login", optClass), map[string]any{"target_access": fmt.Sprintf("%x", target), "options": fmt.Sprintf("%x", opt), "reply": reply.String()})
+	c.Count("disconnect_attempts", 1)
+	c.Count("protection_granted_while_the_target_was_logging_in", 1)
+	if ok && reply.Err == 0 {
+		c.Fail("C06/disconnect/no-error", "disconnect (options %x) of a user whose account (access %x) was marked cannot-be-disconnected by an acknowledged set-user while that user was logging in (before it was registered) was not refused", opt, target)
+	}
+	time.Sleep(1300 * time.Millisecond)
+	srv.Quiesce(refclient.Watchdog)
+	if tgt.Conn.ServerClosed() || tgt.Conn.HandlerDone() {
+		c.Fail("C06/disconnect/closed", "a user whose account was marked cannot-be-disconnected while it was logging in was disconnected (options %x)", opt)
+	}
+	if b, _ := srv.S.BanList.IsBanned(ip); b {
+		c.Fail("C06/disconnect/banned", "the address of a user whose account was marked cannot-be-disconnected while it was logging in was banned (options %x)", opt)
 	}
 }
